@@ -1,20 +1,28 @@
 // h_C02.cpp — harness for C02: KFPrediction over an LTIStateModel, with or
 // without a harness-defined ExogenousModel u(X) = B X + c 1^T.
-// kind predict:   F, Q, means (n x k), covs (n x n*k), weights (k x 1),
-//                 old_means, old_covs, old_weights (content of the output object),
-//                 optional B (n x n), c (n x 1); ints sp ss se (skip flags of
-//                 GaussianPrediction, StateModel, ExogenousModel).
-// kind propagate: F, Q, cur (n x k), old (n x k), optional B, c; ints ss se —
+// kind predict:   F, Q, means (n x k), covs (n x n*k), weights (k x 1), optional B (n x n), c (n x 1);
+//                 ints pl pc pn: the belief is GaussianMixture(k, pl, pc) [Euler angles], pn noise rows added by
+//                 augmentWithNoise (n = pl + pc + pn; KFPrediction treats every row as a plain real);
+//                 the output object: int odef = 1: default-constructed; else ints ok ol oc oq on (components, linear,
+//                 circular, use_quaternion, noise) and its content old_means, old_covs, old_weights (of ITS sizes).
+//                 ints sp ss se (skip flags of GaussianPrediction, StateModel, ExogenousModel).  The generator hands a
+//                 non-skipped call only output objects with the components / dim / dim_covariance of the belief (the
+//                 step writes through fixed-size views); a skipped call gets any object.
+//                 Reported: components, dim, dim_linear, dim_circular, dim_covariance, dim_noise, quat, storage_ok
+//                 (storage sizes agree with the descriptors), means, cov<i>, weights, prev_unchanged.
+// kind propagate: F, Q, cur (n x k), old (n x k), optional B, c; ints ss se -
 //                 LinearStateModel::propagate alone.
 // kind sequence:  ONE KFPrediction object driven through int nsteps predicts over a harness LinearStateModel
 //                 whose F, Q (and exogenous B, c) change between the calls.  Per step s: F_s, Q_s, optional B_s, c_s
-//                 = the matrices the live model holds at that call; means_s, covs_s, weights_s, old_means_s,
-//                 old_covs_s, old_weights_s (component count may change between steps); word steps, token s:
+//                 = the matrices the live model holds at that call; the operands of kind predict with suffix _s
+//                 (component count, layouts, output object and flags change between steps); word steps, token s:
 //                   first      first use of the fresh object
 //                   same       nothing changed since the previous call
 //                   set        the harness changed the model's matrices through setters
 //                   time       ... through StateModel::setSamplingTime(s) of the time-varying model
+//                   attach     an exogenous model (B_s, c_s) was attached to / replaced on the live model
 //                   moveassign the (used) object was move-assigned from another, used, KFPrediction holding model s
+//                              (possibly of another state dimension, with or without exogenous model)
 //                   movector   a new KFPrediction was move-constructed from the (used) object; model unchanged
 //                   movector+set  move-constructed, then the matrices changed
 #define VF_MAIN
@@ -27,25 +35,34 @@
 using namespace bfl;
 using namespace Eigen;
 
+// Callback re-entrancy (vf::intrude, common.hpp): when the case has meta intrude=1, every callback of the subject's
+// state model and exogenous model first lets an independent twin KFPrediction (its own model WITH an exogenous input,
+// other F / Q / B / c / belief of the same shapes) run a complete predict(): user code called back by the library may
+// itself use the library.  The subject's results must not change.
+static bool g_intrude = false;
+static inline void hook() { if (g_intrude) vf::intrude(); }
+
 struct AffineExo : public ExogenousModel {
     MatrixXd B_, c_;
     long* calls_;
     AffineExo(const MatrixXd& B, const MatrixXd& c, long* calls) : B_(B), c_(c), calls_(calls) {}
     void propagate(const Ref<const MatrixXd>& cur, Ref<MatrixXd> prop) override {
+        hook();
         ++*calls_;
         prop = B_ * cur + c_.replicate(1, cur.cols());
+        hook();
     }
     bool setProperty(const std::string&) override { return false; }
-    VectorDescription getStateDescription() const override { return VectorDescription(B_.rows()); }
+    VectorDescription getStateDescription() const override { hook(); return VectorDescription(B_.rows()); }
 };
 
 // exogenous model whose parameters the harness can change between calls
 struct VarExo : public ExogenousModel {
     MatrixXd B_, c_;
     VarExo(const MatrixXd& B, const MatrixXd& c) : B_(B), c_(c) {}
-    void propagate(const Ref<const MatrixXd>& cur, Ref<MatrixXd> prop) override { prop = B_ * cur + c_.replicate(1, cur.cols()); }
+    void propagate(const Ref<const MatrixXd>& cur, Ref<MatrixXd> prop) override { hook(); prop = B_ * cur + c_.replicate(1, cur.cols()); hook(); }
     bool setProperty(const std::string&) override { return false; }
-    VectorDescription getStateDescription() const override { return VectorDescription(B_.rows()); }
+    VectorDescription getStateDescription() const override { hook(); return VectorDescription(B_.rows()); }
 };
 
 // a legal time-varying linear state model: F(T), Q(T) selected by setSamplingTime, or set directly
@@ -53,30 +70,111 @@ struct TimeVarying : public LinearStateModel {
     MatrixXd F_, Q_;
     std::vector<MatrixXd> Fs_, Qs_;
     TimeVarying(const MatrixXd& F, const MatrixXd& Q) : F_(F), Q_(Q) {}
-    MatrixXd getStateTransitionMatrix() override { return F_; }
-    MatrixXd getNoiseCovarianceMatrix() override { return Q_; }
-    MatrixXd getJacobian() override { return F_; }
+    MatrixXd getStateTransitionMatrix() override { hook(); return F_; }
+    MatrixXd getNoiseCovarianceMatrix() override { hook(); return Q_; }
+    MatrixXd getJacobian() override { hook(); return F_; }
     bool setProperty(const std::string&) override { return false; }
-    VectorDescription getStateDescription() override { return VectorDescription(F_.rows()); }
+    VectorDescription getStateDescription() override { hook(); return VectorDescription(F_.rows()); }
     bool setSamplingTime(const double& t) override { const std::size_t i = static_cast<std::size_t>(t); F_ = Fs_.at(i); Q_ = Qs_.at(i); return true; }
     void set(const MatrixXd& F, const MatrixXd& Q) { F_ = F; Q_ = Q; }
 };
 
-static std::string sfx(const std::string& n, long s) { return n + "_" + std::to_string(s); }
+struct LTI : public LTIStateModel {
+    long n_;
+    LTI(const MatrixXd& F, const MatrixXd& Q) : LTIStateModel(F, Q), n_(F.rows()) {}
+    MatrixXd getStateTransitionMatrix() override { hook(); return LTIStateModel::getStateTransitionMatrix(); }
+    MatrixXd getNoiseCovarianceMatrix() override { hook(); return LTIStateModel::getNoiseCovarianceMatrix(); }
+    MatrixXd getJacobian() override { hook(); return LTIStateModel::getJacobian(); }
+    VectorDescription getStateDescription() override { hook(); return VectorDescription(n_); }
+};
+
+// arms the intruder for a call with transition F, noise Q on the n x k means X: a twin KFPrediction with other data of
+// the same shapes and an exogenous input, running a complete predict() whenever a callback of the subject lets it in
+static long g_twin_exo_calls = 0;
+static void arm_intruder(bool on, const MatrixXd& F, const MatrixXd& Q, const MatrixXd& X) {
+    g_intrude = on;
+    if (!on) { vf::clear_intruder(); return; }
+    const long n = F.rows(), k = X.cols();
+    const MatrixXd F2 = -1.75 * F.array() + 0.375, Q2 = 3.0 * Q + MatrixXd::Identity(n, n);
+    const MatrixXd B2 = 0.5 * F.transpose().array() - 0.25, c2 = MatrixXd::Constant(n, 1, 1.5);
+    const MatrixXd m2 = 0.5 * X.array() + 1.0;
+    std::unique_ptr<LinearStateModel> sm2(new LTI(F2, Q2));
+    sm2->add_exogenous_model(std::unique_ptr<ExogenousModel>(new AffineExo(B2, c2, &g_twin_exo_calls)));
+    std::shared_ptr<KFPrediction> twin(new KFPrediction(std::move(sm2)));
+    vf::set_intruder([=]() {
+        GaussianMixture p2(k, n), q2(k, n);
+        p2.mean() = m2;
+        for (long i = 0; i < k; i++) p2.covariance(i) = MatrixXd::Identity(n, n) * (2.0 + i);
+        twin->predict(p2, q2);
+    });
+}
+static void disarm_intruder(long s) {
+    if (g_intrude) vf::out_int(s < 0 ? std::string("intruder_calls") : "intruder_calls_" + std::to_string(s), vf::intruder_state().calls);
+    g_intrude = false; vf::clear_intruder();
+}
+
+static std::string sfx(const std::string& n, long s) { return s < 0 ? n : n + "_" + std::to_string(s); }
+
+// a mixture with the given descriptors (noise rows through augmentWithNoise, as the library produces them)
+static GaussianMixture make_mix(long k, long dl, long dc, bool quat, long dn) {
+    GaussianMixture g(k, dl, dc, quat);
+    if (dn > 0) g.augmentWithNoise(MatrixXd::Zero(dn, dn));
+    return g;
+}
+
+// the belief of step s (s < 0: no suffix): layout ints pl pc pn, content means covs weights
+static GaussianMixture make_prev(const vf::Case& c, long s) {
+    const MatrixXd& means = c.mat(sfx("means", s));
+    GaussianMixture g = make_mix(means.cols(), c.integer(sfx("pl", s)), c.integer(sfx("pc", s)), false, c.integer(sfx("pn", s)));
+    g.mean() = means; g.covariance() = c.mat(sfx("covs", s)); g.weight() = c.mat(sfx("weights", s));
+    return g;
+}
+
+// the output object of step s: default-constructed (odef) or with descriptors ok ol oc oq on and unrelated content
+static GaussianMixture make_old(const vf::Case& c, long s) {
+    if (c.integer(sfx("odef", s)) != 0) return GaussianMixture();
+    GaussianMixture g = make_mix(c.integer(sfx("ok", s)), c.integer(sfx("ol", s)), c.integer(sfx("oc", s)), c.integer(sfx("oq", s)) != 0, c.integer(sfx("on", s)));
+    g.mean() = c.mat(sfx("old_means", s)); g.covariance() = c.mat(sfx("old_covs", s)); g.weight() = c.mat(sfx("old_weights", s));
+    return g;
+}
+
+static bool same_mix(const GaussianMixture& a, const GaussianMixture& b) {
+    return a.components == b.components && a.dim == b.dim && a.dim_linear == b.dim_linear && a.dim_circular == b.dim_circular
+        && a.dim_covariance == b.dim_covariance && a.dim_noise == b.dim_noise && a.use_quaternion == b.use_quaternion
+        && vf::bit_equal(a.mean(), b.mean()) && vf::bit_equal(a.covariance(), b.covariance()) && vf::bit_equal(a.weight(), b.weight());
+}
+
+// what the returned object reports, and whether its storage agrees with it
+static void out_mix(const GaussianMixture& g, long s) {
+    vf::out_int(sfx("components", s), g.components);
+    vf::out_int(sfx("dim", s), g.dim);
+    vf::out_int(sfx("dim_linear", s), g.dim_linear);
+    vf::out_int(sfx("dim_circular", s), g.dim_circular);
+    vf::out_int(sfx("dim_covariance", s), g.dim_covariance);
+    vf::out_int(sfx("dim_noise", s), g.dim_noise);
+    vf::out_int(sfx("quat", s), g.use_quaternion ? 1 : 0);
+    const bool ok = g.mean().rows() == (long)g.dim && g.mean().cols() == (long)g.components
+                 && g.covariance().rows() == (long)g.dim_covariance && g.covariance().cols() == (long)(g.dim_covariance * g.components)
+                 && g.weight().size() == (long)g.components;
+    vf::out_int(sfx("storage_ok", s), ok ? 1 : 0);
+    vf::out_mat(sfx("means", s), g.mean());
+    if (ok) for (long i = 0; i < (long)g.components; i++) vf::out_mat(sfx("cov" + std::to_string(i), s), g.covariance(i));
+    vf::out_mat(sfx("weights", s), g.weight());
+}
 
 static void run_sequence(const vf::Case& c) {
     const long nsteps = c.integer("nsteps");
     const std::vector<std::string>& how = c.word("steps");
-    const bool have_exo = c.has_mat("B_0");
     // the subject and its live model / exogenous model (raw observers; ownership is inside the KFPrediction)
     TimeVarying* tv = new TimeVarying(c.mat("F_0"), c.mat("Q_0"));
     VarExo* ex = nullptr;
     for (long s = 0; s < nsteps; s++) { tv->Fs_.push_back(c.mat(sfx("F", s))); tv->Qs_.push_back(c.mat(sfx("Q", s))); }
-    if (have_exo) { ex = new VarExo(c.mat("B_0"), c.mat("c_0")); tv->add_exogenous_model(std::unique_ptr<ExogenousModel>(ex)); }
+    if (c.has_mat("B_0")) { ex = new VarExo(c.mat("B_0"), c.mat("c_0")); tv->add_exogenous_model(std::unique_ptr<ExogenousModel>(ex)); }
     std::unique_ptr<KFPrediction> kf(new KFPrediction(std::unique_ptr<LinearStateModel>(tv)));
     vf::out_begin(c.id);
     for (long s = 0; s < nsteps; s++) {
         const MatrixXd& F = c.mat(sfx("F", s)); const MatrixXd& Q = c.mat(sfx("Q", s));
+        const bool exo_s = c.has_mat(sfx("B", s));
         const std::string h = how[s];
         if (h == "movector" || h == "movector+set") {
             vf::Entry e("KFPrediction::KFPrediction(KFPrediction&&)");
@@ -85,12 +183,17 @@ static void run_sequence(const vf::Case& c) {
         }
         if (h == "set" || h == "movector+set") { tv->set(F, Q); if (ex) { ex->B_ = c.mat(sfx("B", s)); ex->c_ = c.mat(sfx("c", s)); } }
         else if (h == "time") { kf->getStateModel().setSamplingTime(static_cast<double>(s)); if (ex) { ex->B_ = c.mat(sfx("B", s)); ex->c_ = c.mat(sfx("c", s)); } }
+        else if (h == "attach") {
+            // an exogenous model is attached to (or replaced on) the live model between two calls; matrices unchanged
+            ex = new VarExo(c.mat(sfx("B", s)), c.mat(sfx("c", s)));
+            kf->getStateModel().add_exogenous_model(std::unique_ptr<ExogenousModel>(ex));
+        }
         else if (h == "moveassign") {
-            // a donor that has already predicted once with ITS model (model s), then moved into the subject
+            // a donor that has already predicted once with ITS model (model s, possibly of another dimension), then moved into the subject
             TimeVarying* tv2 = new TimeVarying(F, Q);
             for (long j = 0; j < nsteps; j++) { tv2->Fs_.push_back(c.mat(sfx("F", j))); tv2->Qs_.push_back(c.mat(sfx("Q", j))); }
             VarExo* ex2 = nullptr;
-            if (have_exo) { ex2 = new VarExo(c.mat(sfx("B", s)), c.mat(sfx("c", s))); tv2->add_exogenous_model(std::unique_ptr<ExogenousModel>(ex2)); }
+            if (exo_s) { ex2 = new VarExo(c.mat(sfx("B", s)), c.mat(sfx("c", s))); tv2->add_exogenous_model(std::unique_ptr<ExogenousModel>(ex2)); }
             KFPrediction donor{std::unique_ptr<LinearStateModel>(tv2)};
             const long n = F.rows();
             GaussianMixture a(2, n), b(2, n);
@@ -99,30 +202,21 @@ static void run_sequence(const vf::Case& c) {
             { vf::Entry e("KFPrediction::operator=(KFPrediction&&)"); *kf = std::move(donor); }
             tv = tv2; ex = ex2;
         }
-        const MatrixXd& means = c.mat(sfx("means", s)); const MatrixXd& covs = c.mat(sfx("covs", s));
-        const long n = means.rows(), k = means.cols();
-        GaussianMixture prev(k, n);
-        prev.mean() = means; prev.covariance() = covs; prev.weight() = c.mat(sfx("weights", s));
+        // the three skip flags of this call
+        kf->skip("prediction", c.integer(sfx("sp", s)) != 0);
+        kf->getStateModel().skip("state", c.integer(sfx("ss", s)) != 0);
+        if (ex) kf->getStateModel().skip("exogenous", c.integer(sfx("se", s)) != 0);
+        GaussianMixture prev = make_prev(c, s);
         GaussianMixture prev_copy(prev);
-        GaussianMixture pred(k, n);
-        pred.mean() = c.mat(sfx("old_means", s)); pred.covariance() = c.mat(sfx("old_covs", s)); pred.weight() = c.mat(sfx("old_weights", s));
+        GaussianMixture pred = make_old(c, s);
+        arm_intruder(c.mi("intrude", 0) != 0, F, Q, prev.mean());
         { vf::Entry e("KFPrediction::predict"); kf->predict(prev, pred); }
-        vf::out_int(sfx("components", s), pred.components);
-        vf::out_int(sfx("dim", s), pred.dim);
-        vf::out_mat(sfx("means", s), pred.mean());
-        for (long i = 0; i < (long)pred.components; i++) vf::out_mat(sfx("cov" + std::to_string(i), s), pred.covariance(i));
-        vf::out_mat(sfx("weights", s), pred.weight());
-        vf::out_int(sfx("prev_unchanged", s), vf::bit_equal(prev.mean(), prev_copy.mean()) && vf::bit_equal(prev.covariance(), prev_copy.covariance())
-                                                 && vf::bit_equal(prev.weight(), prev_copy.weight()) && prev.components == prev_copy.components ? 1 : 0);
+        disarm_intruder(s);
+        out_mix(pred, s);
+        vf::out_int(sfx("prev_unchanged", s), same_mix(prev, prev_copy) ? 1 : 0);
     }
     vf::out_end();
 }
-
-struct LTI : public LTIStateModel {
-    long n_;
-    LTI(const MatrixXd& F, const MatrixXd& Q) : LTIStateModel(F, Q), n_(F.rows()) {}
-    VectorDescription getStateDescription() override { return VectorDescription(n_); }
-};
 
 static void set_flags(GaussianPrediction* gp, StateModel& sm, const vf::Case& c, bool have_exo) {
     // skip("prediction", b) sets all three flags to b; the model-level commands then set
@@ -145,35 +239,30 @@ int main() {
             MatrixXd cur = c.mat("cur"), out = c.mat("old");
             MatrixXd cur_copy = cur;
             set_flags(nullptr, *sm, c, have_exo);
+            arm_intruder(c.mi("intrude", 0) != 0, F, Q, cur);
             { vf::Entry e("LinearStateModel::propagate"); sm->propagate(cur, out); }
             vf::out_begin(c.id);
+            disarm_intruder(-1);
             vf::out_mat("prop", out);
             vf::out_int("exo_calls", exo_calls);
             vf::out_int("input_unchanged", vf::bit_equal(cur, cur_copy) ? 1 : 0);
             vf::out_end();
             continue;
         }
-        const MatrixXd& means = c.mat("means"); const MatrixXd& covs = c.mat("covs");
-        const long n = means.rows(), k = means.cols();
-        GaussianMixture prev(k, n);
-        prev.mean() = means; prev.covariance() = covs; prev.weight() = c.mat("weights");
+        GaussianMixture prev = make_prev(c, -1);
         GaussianMixture prev_copy(prev);
-        GaussianMixture pred(k, n);
-        pred.mean() = c.mat("old_means"); pred.covariance() = c.mat("old_covs"); pred.weight() = c.mat("old_weights");
+        GaussianMixture pred = make_old(c, -1);
         KFPrediction kf(std::move(sm));
         set_flags(&kf, kf.getStateModel(), c, have_exo);
+        arm_intruder(c.mi("intrude", 0) != 0, F, Q, prev.mean());
         { vf::Entry e("KFPrediction::predict"); kf.predict(prev, pred); }
         vf::out_begin(c.id);
-        vf::out_int("components", pred.components);
-        vf::out_int("dim", pred.dim);
-        vf::out_mat("means", pred.mean());
-        for (long i = 0; i < (long)pred.components; i++) vf::out_mat("cov" + std::to_string(i), pred.covariance(i));
-        vf::out_mat("weights", pred.weight());
+        disarm_intruder(-1);
+        out_mix(pred, -1);
         vf::out_int("exo_calls", exo_calls);
         vf::out_int("skip_pred", kf.is_skipping() ? 1 : 0);
         vf::out_int("skip_state", kf.getStateModel().is_skipping() ? 1 : 0);
-        vf::out_int("prev_unchanged", vf::bit_equal(prev.mean(), prev_copy.mean()) && vf::bit_equal(prev.covariance(), prev_copy.covariance())
-                                          && vf::bit_equal(prev.weight(), prev_copy.weight()) && prev.components == prev_copy.components ? 1 : 0);
+        vf::out_int("prev_unchanged", same_mix(prev, prev_copy) ? 1 : 0);
         vf::out_end();
     }
     return 0;
